@@ -100,7 +100,7 @@ def census(scfg, out, original_names):
         elif isinstance(b, SyntheticExitingLatch):
             latches[b.variable] += 1
         elif isinstance(b, SyntheticBranch):
-            branch_tests[b.variable] += max(0, len(b.jump_targets) - 1)
+            branch_tests[b.variable] += max(0, len([t for t in b._jump_targets if t not in b.backedges]) - 1)
     got = Counter()
     got_latch = Counter()
     got_tests = Counter()
